@@ -9,6 +9,8 @@ import (
 	"runtime/debug"
 	"sort"
 	"strings"
+	"sync"
+	"time"
 
 	"go.etcd.io/bbolt"
 	"go.sia.tech/core/types"
@@ -222,6 +224,7 @@ func runStoreHistory(r *vh.Run, name string, t *chainx.Tree, sched [][]int, dir 
 }
 
 func runStoreHistories(r *vh.Run, rng *vh.RNG, dir string) {
+	migratedInvalid := false // one slow migration per run (it waits five seconds)
 	trees := r.Pick(6, 120)
 	for i := 0; i < trees; i++ {
 		trng := rng.Fork()
@@ -243,5 +246,131 @@ func runStoreHistories(r *vh.Run, rng *vh.RNG, dir string) {
 			continue
 		}
 		runStoreHistory(r, fmt.Sprintf("store%d", i), t, t.Schedule(trng), dir, i)
+		if !migratedInvalid {
+			migratedInvalid = runMigrationInvalid(r, t, dir, i)
+		}
 	}
+}
+
+// stallingLogger stands for a slow, large migration: it lets a little over five seconds pass when
+// the migration reports the invalid block, so the store's time-based flush fires INSIDE the loop
+// that removes that block and its descendants.
+type stallingLogger struct{ stalled bool }
+
+func (l *stallingLogger) Printf(format string, v ...any) {
+	if strings.Contains(format, "is invalid") && !l.stalled {
+		l.stalled = true
+		time.Sleep(5200 * time.Millisecond)
+	}
+}
+func (l *stallingLogger) SetProgress(float64) {}
+
+// runMigrationInvalid: a version-3 database whose main chain holds an INVALID v2 block at or below
+// the require height (earlier releases could store such blocks) is opened on every backend; the
+// migration removes that block and everything above it. The backends run side by side (each waits
+// five seconds); they must come back without error, on the same tip, with the same contents.
+func runMigrationInvalid(r *vh.Run, t *chainx.Tree, dir string, n int) bool {
+	best := 0
+	for _, l := range t.Leaves() {
+		if t.AllValid(l) && t.Blocks[l].Height > t.Blocks[best].Height {
+			best = l
+		}
+	}
+	path := t.PathFromRoot(best)
+	bad := -1
+	for k, id := range path {
+		b := t.Blocks[id]
+		if b.V2 && b.Height >= 2 && b.Height+2 <= t.Net.N.HardforkV2.RequireHeight && k+2 < len(path) &&
+			t.Blocks[path[k+2]].Height <= t.Net.N.HardforkV2.RequireHeight {
+			bad = k
+			break
+		}
+	}
+	if bad < 0 {
+		return false
+	}
+	badBlk := t.Blocks[path[bad]]
+	badID := badBlk.Block.ID()
+	backends := []string{"mem", "cachemem", "bolt", "cachebolt"}
+	type outcome struct{ obs, dump string }
+	outs := make([]outcome, len(backends))
+	var wg sync.WaitGroup
+	for i, bn := range backends {
+		wg.Add(1)
+		go func(i int, bn string) {
+			defer wg.Done()
+			defer func() {
+				if rec := recover(); rec != nil {
+					outs[i].obs = fmt.Sprintf("panic: %v", rec)
+				}
+			}()
+			sn, err := openStoreNode(t.Net, bn, dir, 100000+n*10+i)
+			if err != nil {
+				outs[i].obs = "open-error: " + err.Error()
+				return
+			}
+			defer sn.close()
+			if res := submitGuard(sn.nd, t.Get(path)); res != "ok" {
+				outs[i].obs = "setup-error: " + res
+				return
+			}
+			if err := sn.nd.Store.Flush(); err != nil {
+				outs[i].obs = "setup-error: " + err.Error()
+				return
+			}
+			bb := sn.nd.DB.Bucket([]byte("Blocks"))
+			val := append([]byte(nil), bb.Get(badID[:])...)
+			com := badBlk.Block.V2.Commitment
+			if bytes.Count(val, com[:]) == 0 {
+				outs[i].obs = "setup-error: commitment not found in the stored record"
+				return
+			}
+			flipped := com
+			flipped[0] ^= 0xFF
+			val = bytes.ReplaceAll(val, com[:], flipped[:])
+			if err := bb.Put(badID[:], val); err != nil {
+				outs[i].obs = "setup-error: " + err.Error()
+				return
+			}
+			if err := sn.nd.DB.Bucket([]byte("Version")).Put([]byte("Version"), []byte{3}); err != nil {
+				outs[i].obs = "setup-error: " + err.Error()
+				return
+			}
+			if err := sn.nd.DB.Flush(); err != nil {
+				outs[i].obs = "setup-error: " + err.Error()
+				return
+			}
+			store, tip, err := chain.NewDBStore(sn.nd.DB, t.Net.N, t.Net.Genesis, &stallingLogger{})
+			if err != nil {
+				outs[i].obs = "reopen-error: " + err.Error()
+				return
+			}
+			nd2 := &chainx.Node{Net: t.Net, DB: sn.nd.DB, Store: store, CM: chain.NewManager(store, tip)}
+			nd2.Reorgs = sn.nd.Reorgs
+			sn.nd = nd2
+			outs[i].obs = c01.Observe(t, nd2, "ok")
+			outs[i].dump, _ = dumpDB(nd2.DB)
+		}(i, bn)
+	}
+	wg.Wait()
+	c := &vh.Case{Name: fmt.Sprintf("migrate-invalid%d", n), Tags: []string{"migration-removes-invalid-v2-block"}, Nontrivial: true, Key: fmt.Sprintf("migrate-invalid%d", n)}
+	c.Op(fmt.Sprintf("migrate-invalid %d", badBlk.ID), outs[0].obs)
+	wantTip := fmt.Sprintf("tip %d ", t.Blocks[path[bad-1]].ID)
+	for i, bn := range backends {
+		o := outs[i]
+		switch {
+		case strings.HasPrefix(o.obs, "setup-error"), strings.HasPrefix(o.obs, "open-error"):
+			c.Tags = append(c.Tags, "migration-setup-failed")
+		case strings.HasPrefix(o.obs, "panic"), strings.HasPrefix(o.obs, "reopen-error"):
+			c.Oracle("store-"+bn+"-migration-failed", "DBStore over %s: migrating a version-3 database whose main chain holds the invalid v2 block %d (height %d), with a time-based flush inside the removal loop: %s", bn, badBlk.ID, badBlk.Height, o.obs)
+		case !strings.Contains(o.obs, wantTip):
+			c.Oracle("store-"+bn+"-migration-wrong-tip", "DBStore over %s: after removing the invalid block %d the tip must be its parent %d: %s", bn, badBlk.ID, t.Blocks[path[bad-1]].ID, o.obs)
+		case o.obs != outs[0].obs:
+			c.Oracle("store-"+bn+"-result-differs", "DBStore over %s after the migration: %s, over MemDB: %s", bn, o.obs, outs[0].obs)
+		case o.dump != outs[0].dump:
+			c.Oracle("store-"+bn+"-contents-differ", "DBStore over %s: bucket contents differ from the MemDB-backed store after the migration (%s vs %s)", bn, o.dump, outs[0].dump)
+		}
+	}
+	r.Add(c)
+	return true
 }
